@@ -26,7 +26,13 @@ RULE = ('types from vlib.hailgen.type_descs (recursive over all type constructor
         'U+0000..U+FFFF (thorough: every code point; quick: all below U+3000, every 4th above) and samples of the astral planes. Oracle (a) Python: dtype(str(t))==t, dtype(t.pretty())==t, vcf grammar on the engine form, '
         'unescape_parsable(escape_parsable(s))==s. Oracle (b) engine: real IRLexer slice tokenises _parsable_string()/'
         'escape_id(name)/escape_parsable(name) into the predicted token sequence. Non-trivial: type contains a name that '
-        'is not accepted bare or is non-ASCII (string cases: the string itself); distinct by canonical case.')
+        'is not accepted bare or is non-ASCII (string cases: the string itself); distinct by canonical case.  SEQUENCE cases '
+        '(shard kind redef): a reference genome name (own name space "redef:"+stress name) is registered with 1..4 contigs, '
+        '1..2 types mentioning locus<name> (bare / interval / array / set / struct field / dict key / dict value / tuple / '
+        'nested, plus a random sub-type) are built, printed and parsed, the name is registered AGAIN (other lengths | other '
+        'contigs | superset | subset | reordered; different by construction), then for a type over the current definition '
+        'all clauses above hold and every locus type in dtype(str(t)) / dtype(t.pretty()) carries the reference genome '
+        'registered now (same object as hl.get_reference(name), equal contigs and lengths); the name is removed afterwards.')
 ASSUMPTIONS = [
     'names contain no lone surrogates (not encodable as UTF-8)',
     'the PEG shim compiles ~"..." with stdlib re; parsimonious 0.11 uses the `regex` module, whose \\w differs from re on '
@@ -356,9 +362,141 @@ def engine_clause(td, names, res=None):
     return fails
 
 
+# ---------------------------------------------------------------------------------------------------------------
+# sequences: a reference genome NAME is defined, used, defined again with other contigs / lengths, used again
+# ---------------------------------------------------------------------------------------------------------------
+
+REDEF_PREFIX = 'redef:'      # a name space of its own: the plain type cases never see a reference genome change under them
+REDEF_NAMES = ['toy', 'rg1', 'my ref', 'r`g', 'r\\g', 'a.b', '1rg', '', 'ré', '名']
+CONTIG_POOL = ['1', '2', 'c1', 'chr 2', 'X', 'Y', 'MT', 'chrUn_x', '', '名😀`\\']
+LOCUS_WRAPPERS = ('locus', 'interval', 'array', 'set', 'struct', 'dict_key', 'dict_value', 'tuple', 'nested')
+
+
+def _wrap(how, loc, extra, fname):
+    if how == 'locus':
+        return loc
+    if how in ('interval', 'array', 'set'):
+        return [how, loc]
+    if how == 'struct':
+        return ['struct', [[fname, loc]] + ([['other' if fname != 'other' else 'other2', extra]])]
+    if how == 'dict_key':
+        return ['dict', loc, extra]
+    if how == 'dict_value':
+        return ['dict', 'str', loc]
+    if how == 'tuple':
+        return ['tuple', [extra, loc]]
+    return ['array', ['struct', [[fname, ['interval', loc]], ['n' if fname != 'n' else 'n2', ['set', loc]]]]]
+
+
+def seq_cases():
+    """Strategy of {'seq': {rg, first, second, before: [td...], t: td}}.  `second` differs from `first` by construction
+    (other contigs, or the same contigs with other lengths); every td in `before` and `t` mentions locus<rg>."""
+    from hypothesis import strategies as st
+
+    @st.composite
+    def gen(draw):
+        name = REDEF_PREFIX + draw(st.sampled_from(REDEF_NAMES))
+        ln = st.sampled_from([1, 2, 7, 1000, 12345, 2 ** 31 - 1])
+        k1 = draw(st.integers(1, 4))
+        start = draw(st.integers(0, len(CONTIG_POOL) - 1))
+        first = [[CONTIG_POOL[(start + i) % len(CONTIG_POOL)], draw(ln)] for i in range(k1)]
+        mode = draw(st.sampled_from(['lengths', 'lengths', 'contigs', 'contigs', 'superset', 'subset', 'reorder']))
+        if mode == 'lengths' or (mode in ('subset', 'reorder') and k1 == 1):
+            j = draw(st.integers(0, k1 - 1))
+            second = [[c, n + 1 if i == j else n] if n < 2 ** 31 - 1 else [c, n - 1 if i == j else n] for i, (c, n) in enumerate(first)]
+            mode = 'lengths'
+        elif mode == 'contigs':
+            shift = draw(st.integers(1, len(CONTIG_POOL) - 1))
+            second = [[CONTIG_POOL[(start + shift + i) % len(CONTIG_POOL)], draw(ln)] for i in range(draw(st.integers(1, 4)))]
+            if second == first:
+                second = second + [[CONTIG_POOL[(start + shift + len(second)) % len(CONTIG_POOL)], 3]]
+        elif mode == 'superset':
+            second = first + [[CONTIG_POOL[(start + k1) % len(CONTIG_POOL)], draw(ln)]]
+        elif mode == 'subset':
+            second = first[:-1]
+        else:
+            second = first[1:] + first[:1]
+        loc = ['locus', name]
+        rgs = st.sampled_from([name, name, 'GRCh37'])
+        fn = hailgen.names_strategy()
+
+        def one():
+            return _wrap(draw(st.sampled_from(LOCUS_WRAPPERS)), loc, draw(hailgen.type_descs(3, rgs=rgs, max_fields=3)), draw(fn))
+        before = [one() for _ in range(draw(st.integers(1, 2)))]
+        return {'seq': dict(rg=name, mode=mode, first=first, second=second, before=before, t=one())}
+    return gen()
+
+
+def _loci(t):
+    hl = hailenv.init()
+    if isinstance(t, hl.tlocus):
+        return [t]
+    if isinstance(t, hl.tinterval):
+        return _loci(t.point_type)
+    if isinstance(t, (hl.tarray, hl.tset, hl.tndarray)):
+        return _loci(t.element_type)
+    if isinstance(t, hl.tdict):
+        return _loci(t.key_type) + _loci(t.value_type)
+    if isinstance(t, (hl.tstruct, hl.ttuple)):
+        return [x for sub in t.types for x in _loci(sub)]
+    return []
+
+
+def sequence_case(case, res=None):
+    """register X := first; build / print / parse types over X; register X := second (replaces the registry entry, as
+    hl.ReferenceGenome(name, ...) does for any non-builtin name); then every round-trip clause for a type over the CURRENT
+    X, plus: each locus type in the parsed result carries the currently registered reference genome."""
+    hl = hailenv.init()
+    sq = case['seq']
+    name = sq['rg']
+    b = hailenv.backend()
+
+    def register(contigs):
+        names = [c for c, _ in contigs]
+        return hl.ReferenceGenome(name, names, {c: n for c, n in contigs}, x_contigs=[c for c in names if c == 'X'])
+
+    fails = []
+    try:
+        register(sq['first'])
+        for td0 in sq['before']:
+            fails += python_type_clause(td0)
+        cur = register(sq['second'])
+        td = sq['t']
+        fails += python_type_clause(td)
+        t = hailgen.build_type(td)
+        want = (list(cur.contigs), dict(cur.lengths))
+        for label, render in (('str', str), ('pretty', lambda x: x.pretty())):
+            try:
+                back = hl.dtype(render(t))
+            except Exception:      # reported by python_type_clause above
+                continue
+            for lt in _loci(back):
+                rg = lt.reference_genome
+                if rg.name != name:
+                    continue
+                got = (list(rg.contigs), dict(rg.lengths))
+                if rg is not hl.get_reference(name) or got != want:
+                    fails.append((f'redefined-rg:{label}:parsed-type-carries-a-stale-reference-genome',
+                                  f'hl.dtype({label}(t)) refers to the reference genome currently registered under the name',
+                                  f'{name!r} was defined as {sq["first"]!r}, used, then redefined as {sq["second"]!r}; '
+                                  f'dtype({render(t)!r}) carries contigs/lengths {got!r}, registered now: {want!r}'))
+                    break
+        names = list(dict.fromkeys(hailgen.type_names(td)))
+        for nm in names:
+            fails += python_string_clause(nm)
+        fails += engine_clause(td, names, res)
+    finally:
+        b._references.pop(name, None)      # nothing of the sequence outlives the case
+    classes = ['sequence_case', 'rg_redefined', f'redef_mode_{sq["mode"]}', f'redef_before_{len(sq["before"])}',
+               'kind_' + hailgen.kind(sq['t'])]
+    return True, classes, _dedupe(fails)
+
+
 def check_case(case, res=None):
     hailenv.init()
     from hail.utils.java import _parsable_str
+    if 'seq' in case:
+        return sequence_case(case, res)
     if 's' in case:
         s = case['s']
         names = [s]
@@ -412,6 +550,8 @@ def plan(tier):
         specs.append(dict(kind='types', n=per, max_leaves=(4, 6, 8, 12, 6, 8, 10, 5)[i]))
     for i in range(2 if tier == 'quick' else 3):
         specs.append(dict(kind='strings', n=per * 3))
+    for i in range(1 if tier == 'quick' else 2):
+        specs.append(dict(kind='redef', n=per // 2))
     return specs
 
 
@@ -448,6 +588,8 @@ def run_shard(spec, seed, tier):
     from vlib.hyp import search
     if kind == 'types':
         strat = hailgen.type_descs(spec['max_leaves'], max_fields=6).map(lambda td: {'t': td})
+    elif kind == 'redef':
+        strat = seq_cases()
     else:
         strat = st.one_of(hailgen.names_strategy(),
                           st.text(alphabet=st.characters(exclude_categories=['Cs']), max_size=12),
